@@ -1,8 +1,10 @@
 """C12 - Transient backend faults are masked and persistent ones end in a bounded error."""
-from specs import streams, local, s3, b2, retry, ratelimit
+from specs import streams, local, s3, b2, retry, ratelimit, options
 
 LEVEL = 'proof'
-UNITS = local.units('C12')[1:3] + s3.method_units('C12')[6:9] + b2.units('C12')[1:3] + [retry.retry_finite('C12')] + retry.requires_auth_units('C12') + retry.giveup_units('C12') + ratelimit.forward_units('C12') + streams.units('C12')
+UNITS = [options.main_run_unit('C12'), b2.upload_url_unit('C12')] + local.units('C12')[1:3] + s3.method_units('C12')[6:9] + b2.units('C12')[1:3] + [retry.retry_finite('C12')] + retry.requires_auth_units('C12') + retry.giveup_units('C12') + ratelimit.forward_units('C12') + streams.units('C12')
+from specs import families as _families
+UNITS = _families.with_families('C12', UNITS)
 BOUNDED = [{'name': 'C12.faults', 'script': 'bounded/c12_faults.py', 'timeout': 900, 'bound': 'payloads of 0/1/2.5/4 stream chunks; fault kinds OSError(stream), ReadError, 500, 429+retry-after, 401(B2); 1..3 consecutive faults (masked) and persistent (bounded error); local, s3c, b2; sleeps patched out'}]
 TRUSTED = [
     'vf symbolic executor (/verif/vf): encoding of the Python subset (DESIGN 2.2)',
